@@ -11,6 +11,9 @@ PNAMES = ['x', 'y', 'z', 'w']
 KWONLY = ['k', 'm']
 
 
+CALLS = []        # appended to by every generated function body: validate/isvalid must never call it
+
+
 class KInterner:
     """objects up to (type, repr): the finest notion, valid for raw and for encoded keys"""
     def __init__(self):
@@ -65,13 +68,14 @@ def build_callable(prog):
     if prog['varkw']: params.append('**kw')
     kind = prog['kind']
     inst = None
+    ns['_calls'] = CALLS
     if kind in ('func', 'partial'):
-        src = 'def target(%s):\n    return 0\n' % ', '.join(params)
+        src = 'def target(%s):\n    _calls.append(1); return 0\n' % ', '.join(params)
         exec(src, ns)
         f = ns['target']
     else:
         meth = '__call__' if kind == 'callable' else 'target'
-        src = 'class C(object):\n    def %s(%s):\n        return 0\n' % (meth, ', '.join(['self'] + params))
+        src = 'class C(object):\n    def %s(%s):\n        _calls.append(1); return 0\n' % (meth, ', '.join(['self'] + params))
         exec(src, ns)
         inst = ns['C']()
         if kind in ('method', 'partial_method'): f = inst.target
